@@ -460,6 +460,7 @@ func CheckC12(c *Ctx) {
 	c.factoryPurity("asset", "NewRepository", "sync/factory") // source and target of the command come from it
 	c.assetNameCodec()                                        // asset lists taken from a file-system target
 	c.tiingoStartDate()
+	c.tiingoFields()
 	fi := c.fn("asset", "Sync", "Run")
 	if fi == nil {
 		return
@@ -1275,6 +1276,7 @@ func CheckC13(c *Ctx) {
 		c.violate("backtest/write-once", site+".worker", fmt.Sprintf("writes=%d", writes), stratLoop.Pos(), "every (asset, strategy) pair must be written exactly once with the outputs of ComputeWithOutcome of that strategy on a fresh copy of the asset's snapshots")
 	}
 	c.errorOrientation("backtest/error-orientation", "backtest")
+	c.errorTestedFirst("backtest/error-tested", 3, "backtest")
 	c.errorsLookedAt("backtest/error-dropped", map[string]string{}, "backtest")
 	c.errorFallThrough("backtest/error-fallthrough", "backtest")
 	c.lockPairing("backtest/lock", "backtest")
@@ -3218,4 +3220,136 @@ func (c *Ctx) writeConsumes() {
 	}
 	run.Count("write_streams", n)
 	run.Floor("write_streams", 6)
+}
+
+// tiingoFields: what Sync copies from a Tiingo source is what ToSnapshot makes of a record. Every
+// field of the snapshot is filled from the record's field of the same role - Date from Date, and
+// Open/High/Low/Close/Volume from the field of that name or its adjusted twin (Adj<Name>), all
+// five from the same family. (Low filled from AdjHigh passes every test of the suite.)
+func (c *Ctx) tiingoFields() {
+	run := c.Run
+	run.Explanation += " The snapshot made of a Tiingo record takes every field from the record's field of the same role (one family: raw or adjusted)."
+	fi := c.fn("asset", "TiingoEndOfDay", "ToSnapshot")
+	if fi == nil || fi.Decl.Body == nil {
+		return
+	}
+	site := "asset.(*TiingoEndOfDay).ToSnapshot"
+	root := c.ssaFunc(fi)
+	if root == nil {
+		return
+	}
+	// ToSnapshot and the unexported functions of the package it calls
+	fns := []*ssa.Function{root}
+	seen := map[*ssa.Function]bool{root: true}
+	for i := 0; i < len(fns) && i < 8; i++ {
+		for _, b := range fns[i].Blocks {
+			for _, in := range b.Instrs {
+				if call, ok := in.(*ssa.Call); ok {
+					if sc := call.Call.StaticCallee(); sc != nil && !seen[sc] && sc.Pkg == root.Pkg && len(sc.Blocks) > 0 && !ast.IsExported(sc.Name()) {
+						seen[sc] = true
+						fns = append(fns, sc)
+					}
+				}
+			}
+		}
+	}
+	structName := func(t types.Type) string {
+		if p, ok := t.Underlying().(*types.Pointer); ok {
+			if nm, ok := p.Elem().(*types.Named); ok {
+				return nm.Obj().Name()
+			}
+		}
+		return ""
+	}
+	fieldOf := func(fa *ssa.FieldAddr) string {
+		p, _ := fa.X.Type().Underlying().(*types.Pointer)
+		if p == nil {
+			return ""
+		}
+		st, _ := p.Elem().Underlying().(*types.Struct)
+		if st == nil || fa.Field >= st.NumFields() {
+			return ""
+		}
+		return st.Field(fa.Field).Name()
+	}
+	from := map[string][]string{} // snapshot field -> record fields stored into it ("?" when not a record field)
+	pos := map[string]token.Pos{}
+	for _, fn := range fns {
+		for _, b := range fn.Blocks {
+			for _, in := range b.Instrs {
+				st, ok := in.(*ssa.Store)
+				if !ok {
+					continue
+				}
+				fa, ok := st.Addr.(*ssa.FieldAddr)
+				if !ok || structName(fa.X.Type()) != "Snapshot" {
+					continue
+				}
+				k := fieldOf(fa)
+				v := st.Val
+				for {
+					switch x := v.(type) {
+					case *ssa.Convert:
+						v = x.X
+						continue
+					case *ssa.ChangeType:
+						v = x.X
+						continue
+					}
+					break
+				}
+				src := "?"
+				if u, isU := v.(*ssa.UnOp); isU && u.Op == token.MUL {
+					if sfa, isFA := u.X.(*ssa.FieldAddr); isFA && structName(sfa.X.Type()) == "TiingoEndOfDay" {
+						src = fieldOf(sfa)
+					}
+				}
+				from[k] = append(from[k], src)
+				if pos[k] == token.NoPos {
+					pos[k] = st.Pos()
+				}
+			}
+		}
+	}
+	family := ""
+	keys := make([]string, 0, len(from))
+	for k := range from {
+		keys = append(keys, k)
+	}
+	sort.Strings(keys)
+	for _, k := range keys {
+		why := ""
+		for _, src := range from[k] {
+			switch {
+			case src == "?":
+				why = k + " is not filled from one field of the record"
+			case k == "Date":
+				if src != "Date" {
+					why = "Date is filled from " + src
+				}
+			case src == k:
+				if family == "adjusted" {
+					why = k + " is the raw value while the other fields are adjusted"
+				}
+				family = "raw"
+			case src == "Adj"+k:
+				if family == "raw" {
+					why = k + " is the adjusted value while the other fields are raw"
+				}
+				family = "adjusted"
+			default:
+				why = k + " is filled from " + src
+			}
+		}
+		run.Oblige(why == "")
+		if why != "" {
+			p := pos[k]
+			if p == token.NoPos {
+				p = fi.Decl.Pos()
+			}
+			c.violate("sync/source-fields", site, "field "+k, p, "the snapshot of a Tiingo record must take every field from the record's field of the same role: "+why)
+		}
+	}
+	run.Count("tiingo_snapshot_fields", len(keys))
+	run.Floor("tiingo_snapshot_fields", 6)
 }
